@@ -1,5 +1,6 @@
 import Sx.Lemmas.Ghost
 import Sx.Lemmas.ShadowCbs
+import Sx.Sys
 /-
   The callback log of the interpreter follows the callback list of the ghost state: if the
   environment's answers never touch the ghost's callback list and its callback relation appends
@@ -84,5 +85,10 @@ theorem covers_cbs (E : GEnv G) (K : CbsEnv E) (cached : Bool) (onCb : CbEvent â
         Â· right
           rw [K.C_appends g e h h' g1 hr hb', ht, honcb e h w h' w' ho]
           simp
+
+/-- the callbacks an observation shows -/
+def Obs.cbEvents : Obs â†’ List CbEvent
+  | .ret _ cbs _ => cbs.map (Â·.ev)
+  | _ => []
 
 end Sx
